@@ -33,7 +33,8 @@ RULE = ("one run = one session set between blob-exchange peers on simulated TCP.
         "and is dropped while the honest writer is open, judged by a follow-up honest request. Whenever a blob is "
         "verified its length must be an int equal to the bytes on disk. family `serving` (5 %): a node downloads a blob with "
         "BlobDownloader while a reader's request for the same blob is placed at its own server 0..8 loop iterations after "
-        "the blob became verified; what it announces it must deliver. A wire monitor parses everything real servers write. "
+        "the blob became verified; what it announces it must deliver. family `dropper` (3 %): BlobDownloader with a peer that "
+        "drops every connection and an honest peer that failed once; the blob must arrive once the ban has run out. A wire monitor parses everything real servers write. "
         "Non-trivial = at least one transfer attempted over a re-chunked stream or one misbehaviour fired; "
         "distinct = distinct event-trace digest.")
 COMPONENTS = {
@@ -57,7 +58,7 @@ EXPECTED_PROBES = ['honest_transfer_ok', 'one_byte_fragments', 'header_alone', '
                    'unknown_length_request', 'client_data_received_escape', 'server_data_received_escape', 'recovered_after_net_fault',
                    'honest_transfer_longer_than_idle_timeout', 'race_checked', 'race_two_honest',
                    'race_liar_during_honest_body', 'race_pin', 'race_pin_followup',
-                   'serving_checked', 'serving_header_announced_blob']
+                   'serving_checked', 'serving_header_announced_blob', 'dropper_checked']
 
 MAX = 2 * 1024 * 1024
 SERVER_CATALOGUE = ['wrong_hash', 'length_short', 'length_long', 'length_zero', 'length_negative', 'length_huge', 'length_string',
@@ -199,6 +200,20 @@ def gen(run_seed, tier):
               'blobs': [{'n': n, 'seed': r6.getrandbits(32), 'kind': 'rand'}],
               'ops': [{'op': 'serving', 'inject_after': r6.choice([0, 0, 1, 1, 2, 3, 5, 8]),
                        'know_length': r6.random() < 0.5}]}
+    # family `dropper`: BlobDownloader with one peer that accepts, reads the request and drops the connection, for ever,
+    # and one honest peer that fails once (its server comes up a moment later): the honest peer's ban must expire
+    r7 = stream('C10.gen.dropper', run_seed)
+    if r7.random() < 0.03:
+        n = r7.choice([1200, 16385, 65536, 200_000])
+        sc = {'family': 'dropper',
+              'timeouts': {'connect': 3.0, 'download': r7.choice([2.0, 5.0]), 'idle': 30.0, 'transfer': 60.0},
+              'net': {'latency': [0.0005, r7.choice([0.002, 0.02])], 'chunk_mode': 'mixed',
+                      'connect_latency': [0.001, 0.01], 'stall_prob': 0.0, 'stall_s': 1.0},
+              'exec_delay': 0.0005,
+              'blobs': [{'n': n, 'seed': r7.getrandbits(32), 'kind': 'rand'}],
+              'ops': [{'op': 'dropper', 'behaviour': 'drop_request', 'at': 0, 'p': r7.random(),
+                       'honest_up_after': r7.choice([0.3, 0.5, 1.5]), 'drop_after': r7.choice([0.0, 0.05, 0.2]),
+                       'know_length': r7.random() < 0.5}]}
     if sc['family'] == 'race':
         r5 = stream('C10.gen.race_pin', run_seed)
         if r5.random() < 0.3:
@@ -709,7 +724,7 @@ def execute(scenario, keep_trace=False):
             if content is None:
                 self.transport.close()
                 return
-            beh = self.op['behaviour'] if idx == self.op.get('at', 0) else 'honest'
+            beh = self.op['behaviour'] if idx == self.op.get('at', 0) or self.op['behaviour'] == 'drop_request' else 'honest'
             loop.create_task(self.reply(beh, h, content))
 
         def header(self, h, length, avail=None, rate='RATE_ACCEPTED', extra=None):
@@ -819,6 +834,10 @@ def execute(scenario, keep_trace=False):
                     await state['race_drop'].wait()
                     if self.transport is not None:
                         net.reset(self.transport)
+            elif beh == 'drop_request':
+                await asyncio.sleep(self.op.get('drop_after', 0.05))
+                if self.transport is not None:
+                    self.transport.close()
             elif beh == 'not_available':
                 t.write(json.dumps({'available_blobs': [], 'blob_data_payment_rate': 'RATE_ACCEPTED',
                                     'incoming_blob': {'error': 'BLOB_UNAVAILABLE'}}).encode())
@@ -1144,6 +1163,38 @@ def execute(scenario, keep_trace=False):
         if ct is not None and reader.lost is None:
             ct.close()
 
+    # ---- a peer that drops every connection, and an honest peer that failed once ------------------------------------
+    async def dropper_session(op):
+        srv = await loop.create_server(lambda: HostileServer(op), HOSTILE_IP, PORT)
+        node = state['clients'][0] = await make_node('c0')
+        bm = node['bm']
+        h, content = hashes[0], blobs[0]
+        q = asyncio.Queue()
+        downloader = BlobDownloader(loop, node['conf'], bm, q)
+        q.put_nowait([make_kademlia_peer(None, HOSTILE_IP, tcp_port=PORT), make_kademlia_peer(None, SERVER_IP, tcp_port=PORT)])
+        loop.call_later(op.get('honest_up_after', 0.5), lambda: loop.create_task(start_real_server()))
+        state['judged'] += 1
+        bound = 40.0 + 6 * T['download']          # bans last failures**2 seconds, 30 at most
+        t0 = loop.time()
+        try:
+            blob = await asyncio.wait_for(downloader.download_blob(h, len(content) if op.get('know_length') else None), bound)
+        except asyncio.TimeoutError:
+            blob = None
+        finally:
+            downloader.close()
+            srv.close()
+        await asyncio.sleep(0.3)
+        data = file_state(node, h)
+        run.probes['dropper_checked'] += 1
+        run.ev('dropper', round(loop.time() - t0, 3), blob is not None, None if data is None else len(data))
+        if not check_poison(node, h, 'dropper'):
+            return
+        if blob is None or not blob.get_is_verified() or data != content:
+            run.violation('C10.honest_transfer_failed', f'BlobDownloader with an honest peer that holds the blob (it refused one '
+                          f'connection {op.get("honest_up_after")}s before it came up) and a peer that drops every connection did '
+                          f'not get the blob within {bound:.0f}s: the honest peer stayed on the ignore list',
+                          via='dropper', jsonlike=False)
+
     # ---- scripted hostile client --------------------------------------------------------------------
     class HostileClient(asyncio.Protocol):
         def __init__(self):
@@ -1282,6 +1333,11 @@ def execute(scenario, keep_trace=False):
             for op in ops:
                 if op['op'] == 'race':
                     await race_session(op)
+                    break
+        elif fam == 'dropper':
+            for op in ops:
+                if op['op'] == 'dropper':
+                    await dropper_session(op)
                     break
         elif fam == 'serving':
             for op in ops:
